@@ -298,8 +298,8 @@ theorem open_iff (c : GCfg) (s : GState) (t : Rat) :
   | some b => simp [isOpen_some c s t b h]
 
 /-- an admitted packet schedules `t_go` exactly by equation B.1 (and records `t_pg = t`) -/
-theorem admit_eq_B1 (c : GCfg) (s : GState) (t ton : Rat) (h : (admit c s t ton).2 = .admitted) :
-    (admit c s t ton).1 = { s with tpg := some t, tgo := some (b1 c.minI c.maxI t ton s.delta) } ∧
+theorem admit_eq_B1 (c : GCfg) (s : GState) (t ton : Rat) (h : (admitPkt c s t ton).2 = .admitted) :
+    (admitPkt c s t ton).1 = { s with tpg := some t, tgo := some (b1 c.minI c.maxI t ton s.delta) } ∧
     isOpen c s t = true ∧ 0 < ton := by
   rcases admit_cases c s t ton with ⟨_, e⟩ | ⟨_, _, e⟩ | ⟨_, _, _, e⟩ | ⟨h1, h2, _, e⟩
   · rw [e] at h; cases h
@@ -309,7 +309,7 @@ theorem admit_eq_B1 (c : GCfg) (s : GState) (t ton : Rat) (h : (admit c s t ton)
 
 /-- a packet is admitted iff `t_on > 0`, the gate is open (and δ ≠ 0) -/
 theorem admit_iff (c : GCfg) (s : GState) (t ton : Rat) (hd : s.delta ≠ 0) :
-    (admit c s t ton).2 = .admitted ↔ (0 < ton ∧ isOpen c s t = true) := by
+    (admitPkt c s t ton).2 = .admitted ↔ (0 < ton ∧ isOpen c s t = true) := by
   rcases admit_cases c s t ton with ⟨h1, e⟩ | ⟨_, h2, e⟩ | ⟨_, _, h0, _⟩ | ⟨h1, h2, _, e⟩
   · rw [e]; constructor
     · intro h; cases h
@@ -342,7 +342,7 @@ theorem update_eq_B2 (c : GCfg) (s : GState) (t d : Rat) (hd : 0 < d) :
 
 /-- non-positive `t_on` / `delta_new` are rejected without touching the state -/
 theorem gate_rejects_nonpositive (c : GCfg) (s : GState) (t x : Rat) (h : x ≤ 0) :
-    admit c s t x = (s, .valueError) ∧ updDelta c s t x = (s, .valueError) := by
+    admitPkt c s t x = (s, .valueError) ∧ updDelta c s t x = (s, .valueError) := by
   constructor
   · rcases admit_cases c s t x with ⟨_, e⟩ | ⟨h1, _⟩ | ⟨h1, _⟩ | ⟨h1, _⟩
     · exact e
@@ -398,11 +398,11 @@ theorem never_closed_longer_than_1s (d0 : Rat) (hd : d0 ≠ 0) (ops : List GOp) 
 /-- at most one packet per opening: an admission closes the gate — it stays closed at every time before
 `t + MIN − ε`, in particular at `t` itself, so a second packet presented then is rejected -/
 theorem one_per_opening (c : GCfg) (hc : c.minI ≤ c.maxI) (s : GState) (t ton : Rat)
-    (h : (admit c s t ton).2 = .admitted) (t' ton' : Rat) (ht' : t' < t + c.minI - c.eps) (hton : 0 < ton') :
-    isOpen c (admit c s t ton).1 t' = false ∧ (admit c (admit c s t ton).1 t' ton').2 = .rejected := by
+    (h : (admitPkt c s t ton).2 = .admitted) (t' ton' : Rat) (ht' : t' < t + c.minI - c.eps) (hton : 0 < ton') :
+    isOpen c (admitPkt c s t ton).1 t' = false ∧ (admitPkt c (admitPkt c s t ton).1 t' ton').2 = .rejected := by
   obtain ⟨e, _, _⟩ := admit_eq_B1 c s t ton h
   have hb := clampI_bounds c (ton / s.delta) hc
-  have hclosed : isOpen c (admit c s t ton).1 t' = false := by
+  have hclosed : isOpen c (admitPkt c s t ton).1 t' = false := by
     rw [e]
     cases hh : isOpen c { s with tpg := some t, tgo := some (b1 c.minI c.maxI t ton s.delta) } t' with
     | false => rfl
@@ -412,23 +412,23 @@ theorem one_per_opening (c : GCfg) (hc : c.minI ≤ c.maxI) (s : GState) (t ton 
       have h1 : c.minI ≤ min (max (ton / s.delta) c.minI) c.maxI := hb.1
       linarith
   refine ⟨hclosed, ?_⟩
-  rcases admit_cases c (admit c s t ton).1 t' ton' with ⟨h1, _⟩ | ⟨_, _, e2⟩ | ⟨_, h2, _⟩ | ⟨_, h2, _⟩
+  rcases admit_cases c (admitPkt c s t ton).1 t' ton' with ⟨h1, _⟩ | ⟨_, _, e2⟩ | ⟨_, h2, _⟩ | ⟨_, h2, _⟩
   · linarith
   · rw [e2]
   · rw [hclosed] at h2; cases h2
   · rw [hclosed] at h2; cases h2
 
 /-- for the code's constants the gate is closed at the admission instant itself (ε < 25 ms) -/
-theorem one_per_opening_code (s : GState) (t ton ton' : Rat) (h : (admit codeCfg s t ton).2 = .admitted)
-    (hton : 0 < ton') : (admit codeCfg (admit codeCfg s t ton).1 t ton').2 = .rejected := by
+theorem one_per_opening_code (s : GState) (t ton ton' : Rat) (h : (admitPkt codeCfg s t ton).2 = .admitted)
+    (hton : 0 < ton') : (admitPkt codeCfg (admitPkt codeCfg s t ton).1 t ton').2 = .rejected := by
   have hk := gate_constants_ok
   exact (one_per_opening codeCfg codeCfg_min_le_max s t ton h t ton' (by linarith [hk.1, hk.2.2.2.2]) hton).2
 
 /-- non-vacuity: the docstring scenario (δ = 0.01, T_on = 1 ms → closed for 100 ms), with exact constants -/
 example : admissions ⟨1/40, 1, 0⟩ (GState.init (1/100))
-    [.admit 0 (1/1000), .admit 0 (1/1000), .admit (99/1000) (1/1000), .admit (1/10) (1/1000)] = [0, 1/10] := by
+    [.admitPkt 0 (1/1000), .admitPkt 0 (1/1000), .admitPkt (99/1000) (1/1000), .admitPkt (1/10) (1/1000)] = [0, 1/10] := by
   decide +kernel
-example : (gRun ⟨1/40, 1, 0⟩ (GState.init (1/100)) [.admit 0 (1/1000), .upd (1/100) (1/50)]).tgo = some (1/20) := by
+example : (gRun ⟨1/40, 1, 0⟩ (GState.init (1/100)) [.admitPkt 0 (1/1000), .upd (1/100) (1/50)]).tgo = some (1/20) := by
   decide +kernel
 
 end Props.C19
